@@ -70,7 +70,8 @@ Large == {LargeShape(i, t) : i \in 1..Len(Sizes), t \in 1..T}
 LCoranks == <<0, 10, 70, 100>>
 LProfiles == <<"sieve", "uniform", "dense">>
 \* columns for n rows: a few more (sieve-like) / a hundred more (large kernel) / fewer (tall)
-LCols(n, a) == CASE a = 1 -> n + 10 [] a = 2 -> n + 100 [] a = 3 -> n - 8
+\* (odd and even column counts: the blocked products of Lanczos run over 64-bit words of column blocks)
+LCols(n, a) == CASE a = 1 -> n + 11 [] a = 2 -> n + 100 [] a = 3 -> n - 7
 LanczosShape(i, t) ==
   LET n == LSizes[i]
       p == ((i + t) % 3) + 1
